@@ -188,10 +188,168 @@ def run(chk):
         chk.ob("R-SHIFT-GUARD", c, "every slice x[:-k] is reached only with k > 0 (x[:-0] would select nothing)", not hz,
                derived="; ".join("%s `%s`" % (e.loc, e.stmt) for e in hz[:3]) or "no unguarded negative upper bound", loc=hz[0].loc if hz else r.fi.loc(),
                stmt=hz[0].stmt if hz else None)
+    put_rules(chk)
+    chk.floor("R-PUT", 6)
     chk.floor("R-SE-TYPE", 100)
     chk.floor("R-SE-SIGN", 10)
     chk.floor("R-SE-ROWS", 16)
     chk.floor("R-JOIN", 9)
+
+
+def put_rules(chk):
+    """put_array_in_2d_array: row i holds the values from column start_extras + shifts[i] on, start_extras = -min(min(shifts), 0) columns
+    are added in front and end_extras = max(max(shifts), 0) behind, the rest is zero; the clip options cut exactly those added columns.
+    Read off the syntax with every single-assignment local inlined, so the names of the loop variables and temporaries do not matter."""
+    P = chk.P
+    fi = P.fn(TS + "put_array_in_2d_array")
+    c = "eqsig/fns/time_shift.py:put_array_in_2d_array"
+    chk.rule("R-PUT", "put_array_in_2d_array: extras from min / max of the shifts against 0, zeros buffer of npts + both extras columns, row i "
+                      "stored at [start_extras + shift_i : start_extras + shift_i + npts], clip 'end'/'both' drops the end extras (when > 0), "
+                      "'start'/'both' the start extras")
+    vals, shf = fi.params[0], fi.params[1]
+    nm = straightline_env(fi.node.body, Normaliser(), exclude=set(fi.params))
+    defs = {n.targets[0].id: n for n in ast.walk(fi.node) if isinstance(n, ast.Assign) and len(n.targets) == 1 and isinstance(n.targets[0], ast.Name)}
+    loops = [n for n in ast.walk(fi.node) if isinstance(n, ast.For)]
+    lp = None
+    row = col = None
+    for n in loops:
+        it = n.iter
+        if isinstance(it, ast.Call) and ast.unparse(it.func) == "enumerate" and len(it.args) == 1 and ast.unparse(it.args[0]) == shf and \
+                isinstance(n.target, ast.Tuple) and len(n.target.elts) == 2 and all(isinstance(x, ast.Name) for x in n.target.elts):
+            lp, row, col = n, n.target.elts[0].id, n.target.elts[1].id
+    stores = [st for st in (ast.walk(lp) if lp is not None else []) if isinstance(st, ast.Assign) and isinstance(st.targets[0], ast.Subscript) and
+              isinstance(st.targets[0].slice, ast.Tuple) and len(st.targets[0].slice.elts) == 2 and isinstance(st.targets[0].slice.elts[1], ast.Slice)]
+    npts = Normaliser().poly(ast.parse("len(%s)" % vals, mode="eval").body)
+    se_p = Normaliser().poly(ast.parse("-np.min([np.min(%s), 0])" % shf, mode="eval").body)
+    ee_p = Normaliser().poly(ast.parse("np.max([np.max(%s), 0])" % shf, mode="eval").body)
+    buf = None
+    if lp is None:
+        # the same placement without a loop: out[arange(rows)[:, None], (start_extras + shifts)[:, None] + arange(npts)[None, :]] = values
+        vst = [st for st in fi.node.body if isinstance(st, ast.Assign) and isinstance(st.targets[0], ast.Subscript) and
+               isinstance(st.targets[0].value, ast.Name) and isinstance(st.targets[0].slice, ast.Tuple) and len(st.targets[0].slice.elts) == 2 and
+               not any(isinstance(x, ast.Slice) for x in st.targets[0].slice.elts)]
+        if len(vst) == 1:
+            st = vst[0]
+            buf = st.targets[0].value.id
+            A, B = [nm.poly(x) for x in st.targets[0].slice.elts]
+            wantA = Normaliser().poly(ast.parse("np.arange(len(%s))" % shf, mode="eval").body)
+            wantB = se_p + Poly.atom(shf) + Normaliser().poly(ast.parse("np.arange(len(%s))" % vals, mode="eval").body)
+            chk.ob("R-PUT", c + "{placement}", "row i is stored at columns [start_extras + shift_i : start_extras + shift_i + npts], start_extras = "
+                   "-min(min(shifts), 0)", A == wantA and B == wantB and ast.unparse(st.value) == vals,
+                   derived="%s[%s, %s] = %s" % (buf, A.canon(), B.canon(), ast.unparse(st.value)), loc=fi.loc(st), stmt=norm_stmt(st))
+    if buf is None and (lp is None or len(stores) != 1):
+        chk.ob("R-PUT", c + "{placement}", "one loop over enumerate(shifts) with one row store", False,
+               derived="%d loop(s) over enumerate(%s), %d row store(s)" % (0 if lp is None else 1, shf, len(stores)), inconclusive=True, loc=fi.loc())
+        return
+    if buf is None:
+      st = stores[0]
+      env = Normaliser()
+      env.env = dict(nm.env)
+      straightline_env(lp.body, env, exclude={row, col})
+      r_, sl = st.targets[0].slice.elts
+      buf = st.targets[0].value.id if isinstance(st.targets[0].value, ast.Name) else None
+      SE, EE = Poly.atom("-np.min"), None
+      want_se = "-1*np.min([np.min(%s), 0])" % shf
+      want_ee = "1*np.max([np.max(%s), 0])" % shf
+      lo, hi = (env.poly(sl.lower) if sl.lower is not None else None), (env.poly(sl.upper) if sl.upper is not None else None)
+      J = Poly.atom(col)
+      npts = Normaliser().poly(ast.parse("len(%s)" % vals, mode="eval").body)
+      se_p = Normaliser().poly(ast.parse("-np.min([np.min(%s), 0])" % shf, mode="eval").body)
+      ee_p = Normaliser().poly(ast.parse("np.max([np.max(%s), 0])" % shf, mode="eval").body)
+      okrow = isinstance(r_, ast.Name) and r_.id == row and ast.unparse(st.value) == vals
+      chk.ob("R-PUT", c + "{placement}", "row i is stored at columns [start_extras + shift_i : start_extras + shift_i + npts], start_extras = "
+             "-min(min(shifts), 0)", okrow and lo == se_p + J and hi is not None and lo is not None and hi - lo == npts,
+             derived="%s[%s, %s : %s] = %s" % (buf, ast.unparse(r_), lo.canon() if lo is not None else None, hi.canon() if hi is not None else None,
+                                             ast.unparse(st.value)), loc=fi.loc(st), stmt=norm_stmt(st))
+    # the buffer
+    allocs = [n for n in ast.walk(fi.node) if isinstance(n, ast.Assign) and len(n.targets) == 1 and isinstance(n.targets[0], ast.Name) and
+              n.targets[0].id == buf and isinstance(n.value, ast.Call) and ast.unparse(n.value.func) in ("np.zeros", "numpy.zeros")]
+    alloc = allocs[0] if len(allocs) == 1 else None
+    oka, der = False, "no allocation of `%s` found" % buf
+    inc = True
+    if alloc is not None and isinstance(alloc.value, ast.Call) and ast.unparse(alloc.value.func) in ("np.zeros", "numpy.zeros") and alloc.value.args and \
+            isinstance(alloc.value.args[0], (ast.Tuple, ast.List)) and len(alloc.value.args[0].elts) == 2:
+        d0, d1 = [nm.poly(x) for x in alloc.value.args[0].elts]
+        oka = d0 == Normaliser().poly(ast.parse("len(%s)" % shf, mode="eval").body) and d1 == npts + se_p + ee_p
+        der = "np.zeros((%s, %s))" % (d0.canon(), d1.canon())
+        inc = False
+    chk.ob("R-PUT", c + "{buffer}", "zeros of shape (len(shifts), npts + start_extras + end_extras), end_extras = max(max(shifts), 0)", oka, derived=der,
+           loc=fi.loc(alloc) if alloc is not None else fi.loc(), inconclusive=inc)
+    # the clip options: which literals select which cut, and what is cut
+    def lits(test):
+        out = set()
+        for x in ast.walk(test):
+            if isinstance(x, ast.Compare) and len(x.ops) == 1 and isinstance(x.ops[0], ast.In) and isinstance(x.comparators[0], (ast.List, ast.Tuple, ast.Set)):
+                out |= {e.value for e in x.comparators[0].elts if isinstance(e, ast.Constant)}
+            elif isinstance(x, ast.Compare) and len(x.ops) == 1 and isinstance(x.ops[0], ast.Eq) and isinstance(x.comparators[0], ast.Constant) and \
+                    isinstance(x.comparators[0].value, str):
+                out.add(x.comparators[0].value)
+        return out
+    cuts = []
+    # names bound once to a test (clip_end = clip in (...)) are read through; a negated test selects by its else side, which is the rest of
+    # the block when the body always leaves
+    import copy as _copy
+    once = {}
+    cnt = {}
+    for n in ast.walk(fi.node):
+        if isinstance(n, ast.Name) and isinstance(n.ctx, ast.Store):
+            cnt[n.id] = cnt.get(n.id, 0) + 1
+    for n in ast.walk(fi.node):
+        if isinstance(n, ast.Assign) and len(n.targets) == 1 and isinstance(n.targets[0], ast.Name) and cnt.get(n.targets[0].id) == 1 and \
+                isinstance(n.value, (ast.Compare, ast.BoolOp, ast.UnaryOp)):
+            once[n.targets[0].id] = n.value
+
+    class _In(ast.NodeTransformer):
+        def visit_Name(self, x):
+            return self.visit(_copy.deepcopy(once[x.id])) if (isinstance(x.ctx, ast.Load) and x.id in once) else x
+
+    def sides(block):
+        for k, n in enumerate(block):
+            if isinstance(n, ast.If):
+                t = _In().visit(_copy.deepcopy(n.test))
+                neg = isinstance(t, ast.UnaryOp) and isinstance(t.op, ast.Not)
+                pos_side = n.body if not neg else (n.orelse or (block[k + 1:] if _always_leaves(n.body) else []))
+                if lits(t):
+                    yield t, pos_side, n
+                for sub in (n.body, n.orelse):
+                    for y in sides(sub):
+                        yield y
+            else:
+                for fld in ("body", "orelse"):
+                    sub = getattr(n, fld, None)
+                    if isinstance(sub, list) and sub and isinstance(sub[0], ast.stmt) and not isinstance(n, (ast.FunctionDef, ast.ClassDef)):
+                        for y in sides(sub):
+                            yield y
+
+    def _always_leaves(body):
+        return bool(body) and isinstance(body[-1], (ast.Return, ast.Raise))
+    for t_, side, n in sides(fi.node.body):
+        if True:
+            for x in [y for b_ in side for y in ast.walk(b_)]:
+                if isinstance(x, ast.Subscript) and isinstance(x.value, ast.Name) and x.value.id == buf and isinstance(x.ctx, ast.Load) and \
+                        isinstance(x.slice, ast.Tuple) and len(x.slice.elts) == 2 and isinstance(x.slice.elts[1], ast.Slice):
+                    s2 = x.slice.elts[1]
+                    cuts.append((frozenset(lits(t_)), nm.poly(s2.lower) if s2.lower is not None else None,
+                                 nm.poly(s2.upper) if s2.upper is not None else None, n, t_))
+    endc = [x for x in cuts if x[1] is None and x[2] is not None]
+    startc = [x for x in cuts if x[1] is not None and x[2] is None]
+    chk.ob("R-PUT", c + "{clip end}", "clip in ('end', 'both') cuts the end extras: [:, :-end_extras], only when end_extras > 0", len(endc) == 1 and
+           endc[0][0] == frozenset(["end", "both"]) and endc[0][2] == Poly.const(-1) * ee_p and
+           any(isinstance(y, ast.Compare) and isinstance(y.ops[0], ast.Gt) and nm.poly(y.left) == ee_p and nm.poly(y.comparators[0]) == Poly.const(0)
+               for y in ast.walk(endc[0][4])),
+           derived="%s" % [(sorted(x[0]), x[2].canon()) for x in endc], loc=fi.loc(endc[0][3]) if endc else fi.loc(), inconclusive=not endc)
+    chk.ob("R-PUT", c + "{clip start}", "clip in ('start', 'both') cuts the start extras: [:, start_extras:]", len(startc) == 1 and
+           startc[0][0] == frozenset(["start", "both"]) and startc[0][1] == se_p,
+           derived="%s" % [(sorted(x[0]), x[1].canon()) for x in startc], loc=fi.loc(startc[0][3]) if startc else fi.loc(), inconclusive=not startc)
+    # typing of the result on the interpretation: linear in the values, independent of nothing else that scales, fresh storage
+    r = analyse(chk, TS + "put_array_in_2d_array", lambda I, st_, fi_: dict(values=rec_array("values"), shifts=AV(
+        kind=K_ARRAY, dtype="int", shape=(LinExpr(3),), origin=frozenset(["p:shifts"]), tags=frozenset(["p:shifts"])), clip=const_av("none")))
+    unmodelled_in(r, chk, "R-PUT", c)
+    expect(chk, "R-PUT", c + ".result", r.ret, lin=[R], kind=K_ARRAY, loc=fi.loc())
+    ss = [e for e in r.events("store-shape", TS + "put_array_in_2d_array")] if lp is not None else []
+    if lp is not None:
+      chk.ob("R-PUT", c + "{row width}", "the stored slice is exactly as wide as the values", bool(ss) and all(e.target_shape == e.value_shape for e in ss),
+           derived="%s" % [(e.target_shape, e.value_shape) for e in ss], loc=ss[0].loc if ss else fi.loc(), inconclusive=not ss)
 
 
 def rows_rule(chk, r, c):
